@@ -301,6 +301,8 @@ class TorchOps(Ops):
         if tvv is None:
             return tv.but(p=False, q=False, s=False, z=False, deg=None)
         parts = list(idx[1]) if idx[0] == "tuple" else [idx]
+        if not parts and tv.note == "uninitialised":
+            return tvv.but(kind=tv.kind, note="")  # buf[()] = v: the whole (uninitialised) buffer receives v
         p, q, s, z = tv.p and tvv.p, tv.q and tvv.q, tv.s and tvv.s, tv.z and tvv.z
         gen = tv.gen | tvv.gen
         for pos, part in enumerate(parts):
@@ -317,7 +319,12 @@ class TorchOps(Ops):
                     q = s = z = False
                 continue
             it = tv_of(part[1])
-            if it is not None and (it.idx_of == tag or (it.gen and tag == "R")):
+            if it is not None and it.idx_of == tag == "R" and it.gen and pos == 0 and it.is_py and tvv.gen <= it.gen and not aug and self._persists_over(st, it.gen):
+                # buf[i] = f(row i) for the generic index i of a loop over ALL rows: once the loop is over, row i of buf is f(row i)
+                # for every i — a row-wise map, which no longer depends on the position the loop happens to be at
+                p = p and it.p
+                gen = (gen | it.gen) - it.gen
+            elif it is not None and (it.idx_of == tag or (it.gen and tag == "R")):
                 p = p and it.p
                 gen = gen | it.gen
             elif tag == "R":
@@ -325,15 +332,34 @@ class TorchOps(Ops):
                 self.clear("p", "store at a constant position of the row axis", st)
             elif tag == "C":
                 q = s = z = False
-        out = tv.but(p=p, q=q, s=s, z=z, gen=gen, deg=join_deg(tv.deg, tvv.deg), poly=None, rng=tv.rng or tvv.rng,
-                     origin=tv.origin | tvv.origin)
+        out = tv.but(p=p, q=q, s=s, z=z, gen=gen, deg=tvv.deg if tv.note == "uninitialised" else join_deg(tv.deg, tvv.deg), poly=None, rng=tv.rng or tvv.rng,
+                     origin=tv.origin | tvv.origin, span=(tv.span or tv.note == "uninitialised") and tvv.span)
         if len(parts) == 1 and parts[0][0] == "index":
             it = tv_of(parts[0][1])
             if it is not None and tv.axes and ((it.kind == "tensor" and it.axes) or (it.is_py and it.idx_of is not None and it.idx_of == tv.axes[0])):
                 # x[indices] = v: a scatter of v at the given positions (used as an alternative spelling of one_hot(...).sum(0))
+                if tv.poly is not None and tv.poly.const_value() == 0 and tvv.poly is not None and not aug and it.is_py and not tvv.axes:
+                    # zeros with ONE entry set, at a generic position: like diag(), `poly` is the value of the structurally non-zero entries
+                    out = out.but(poly=tvv.poly)
                 out = self.tag(out.but(origin=out.origin | it.origin), "index_put", st, axis=tv.axes[0], base_poly=tv.poly, base_axes=list(tv.axes), value_poly=tvv.poly,
                                size_poly=self.size_tv(tv, 0).poly if tv.axes else None, in_idx_of=it.idx_of, in_origin=sorted(it.origin), aug=bool(aug))
         return out
+
+    def _persists_over(self, st, lids) -> bool:
+        """The buffer written by the subscript store `st` was bound before the loops `lids` started and is not rebound inside them
+        (so the stores of all iterations land in one buffer)."""
+        tgt = st.targets[0] if isinstance(st, ast.Assign) and len(st.targets) == 1 else getattr(st, "target", None)
+        if not (isinstance(tgt, ast.Subscript) and isinstance(tgt.value, ast.Name)):
+            return False
+        name = tgt.value.id
+        for lid in lids:
+            loop = getattr(self, "loop_stmts", {}).get(lid)
+            if loop is None:
+                return False
+            for n in ast.walk(loop):
+                if isinstance(n, ast.Name) and n.id == name and isinstance(n.ctx, ast.Store):
+                    return False
+        return True
 
     # ====================================================================== attributes of values
     def value_attr(self, base, attr, node, env):
